@@ -10,6 +10,7 @@ import Grip.Model.C01
 import Grip.Spec.C01
 import GripProofs.Lemmas.C01
 import GripProofs.Lemmas.C01Typing
+import GripProofs.Lemmas.C01Distinct
 import GripGen.CoreTyping
 
 namespace Grip.Props.C01
@@ -129,6 +130,61 @@ theorem trunc_count_order_free (from_ : DataType) (s : Stmt) (xs ys : List Trave
 theorem distinct_sub (from_ : DataType) (fs : List String) (ts : List Traveler) :
     (evalStepT numOf g from_ (.distinct fs) ts).Sublist ts := by
   simpa [evalStepT, stepDistinct] using distinctGo_sublist _ [] ts
+
+/-- the field list `distinct` uses: the compiler's default key is the element id -/
+def distinctFields (fs : List String) : List String := if fs.isEmpty then ["_gid"] else fs
+
+/-- `distinct` keeps exactly one row per key value: every row kept has all the key fields, no two
+    rows kept have the same key, and a key occurs among the rows kept iff it occurs in the input. -/
+theorem distinct_one_per_key (from_ : DataType) (fs : List String) (ts : List Traveler) :
+    let out := evalStepT numOf g from_ (.distinct fs) ts
+    (∀ t ∈ out, ∃ k, distinctKey (distinctFields fs) t = some k) ∧
+    (keysOf (distinctFields fs) out).Nodup ∧
+    (∀ k, k ∈ keysOf (distinctFields fs) out ↔ k ∈ keysOf (distinctFields fs) ts) := by
+  have h := distinctGo_keys (distinctFields fs) [] ts
+  show (∀ t ∈ distinctGo (distinctFields fs) [] ts, ∃ k, distinctKey (distinctFields fs) t = some k) ∧
+    (keysOf (distinctFields fs) (distinctGo (distinctFields fs) [] ts)).Nodup ∧
+    (∀ k, k ∈ keysOf (distinctFields fs) (distinctGo (distinctFields fs) [] ts) ↔ k ∈ keysOf (distinctFields fs) ts)
+  refine ⟨h.1, h.2.1, fun k => ?_⟩
+  have := h.2.2 k
+  simpa using this
+
+/-- Hence the NUMBER of rows `distinct` returns is the number of different keys, whatever the order
+    of its input (which the documentation does not fix): two orders of one input give equally many
+    rows, with the same keys. -/
+theorem distinct_count_order_free (from_ : DataType) (fs : List String) (xs ys : List Traveler)
+    (h : xs.Perm ys) :
+    (evalStepT numOf g from_ (.distinct fs) xs).length = (evalStepT numOf g from_ (.distinct fs) ys).length ∧
+    (keysOf (distinctFields fs) (evalStepT numOf g from_ (.distinct fs) xs)).Perm
+      (keysOf (distinctFields fs) (evalStepT numOf g from_ (.distinct fs) ys)) := by
+  have hp := distinctGo_keys_perm (distinctFields fs) [] h
+  refine ⟨?_, hp⟩
+  show (distinctGo (distinctFields fs) [] xs).length = (distinctGo (distinctFields fs) [] ys).length
+  rw [distinctGo_length, distinctGo_length]
+  exact hp.length_eq
+
+/-- When the key tells the rows of the input apart (rows with equal keys are equal rows — e.g. a key
+    containing the element id on rows that differ in nothing but their element), the result itself
+    does not depend on the order of the input: `distinct` respects multiset equality. This is the
+    comparison class the correspondence run uses for traversals with several `distinct` steps. -/
+theorem distinct_perm_of_key_injective (from_ : DataType) (fs : List String) (xs ys : List Traveler)
+    (h : xs.Perm ys)
+    (hinj : ∀ a ∈ xs, ∀ b ∈ xs, distinctKey (distinctFields fs) a = distinctKey (distinctFields fs) b →
+      distinctKey (distinctFields fs) a ≠ none → a = b) :
+    (evalStepT numOf g from_ (.distinct fs) xs).Perm (evalStepT numOf g from_ (.distinct fs) ys) := by
+  have hinj' : ∀ a ∈ ys, ∀ b ∈ ys, distinctKey (distinctFields fs) a = distinctKey (distinctFields fs) b →
+      distinctKey (distinctFields fs) a ≠ none → a = b :=
+    fun a ha b hb => hinj a (h.mem_iff.2 ha) b (h.mem_iff.2 hb)
+  have hx := distinctGo_rows_of_inj (distinctFields fs) [] xs hinj
+  have hy := distinctGo_rows_of_inj (distinctFields fs) [] ys hinj'
+  show (distinctGo (distinctFields fs) [] xs).Perm (distinctGo (distinctFields fs) [] ys)
+  rw [List.perm_ext_iff_of_nodup hx.1 hy.1]
+  intro t
+  rw [hx.2 t, hy.2 t, h.mem_iff]
+
+/-- non-vacuity (a test, not the unbounded claim): two rows on one vertex, one on another -/
+example : (stepDistinct [] [({} : Traveler), {}]).length ≤ 2 := by
+  exact (distinctGo_sublist _ [] _).length_le
 
 /-- `count` yields exactly one row carrying the number of rows it was given. -/
 theorem count_row (from_ : DataType) (ts : List Traveler) :
